@@ -342,6 +342,13 @@ def k4():
     out.append(mk("k4_dup_h", "i8", [-7, 0, 1, 20], "K4", order="reversed",
                   idents={-7: "P", 0: "Q", 1: "S", 20: "T"},
                   renames={-7: "x", 1: "x", 20: "Q"}))
+    # identifiers: every lower-case initial, underscore, digits; identifiers that are prefixes
+    # of each other (`r`, `rr`, `red`) - the name is the identifier, character for character
+    idl = [chr(97 + i) + "v" for i in range(26)] + ["r", "rr", "red", "_r", "R", "r2"]
+    out.append(mk("k4_ids", "u8", list(range(len(idl))), "K4I", order="sorted", implicit="max",
+                  idents={i: x for i, x in enumerate(idl)},
+                  enum_attrs=["#[allow(non_camel_case_types)]"],
+                  note="identifier alphabet: lower-case initials, underscore, prefixes"))
     return out
 
 
@@ -427,6 +434,26 @@ def k6():
     out.append(mk("k6_isize", "isize", [-0x100, -0xff, 0, 1, 2], "K6",
                   order=[0, 1, 2, -0x100, -0xff], implicit="max",
                   lits={-0x100: "-0x100isize"}, tier="t"))
+    return out
+
+
+def k10():
+    """span boundaries: with-holes enums whose MAX - MIN is exactly 2^k - 1, 2^k, 2^k + 1
+    (word-size boundaries of any lookup / bitmask / index-width shortcut), two or three runs,
+    starting at 0, below 0 and at the lower type limit."""
+    out = []
+    k = 0
+    for s in (7, 8, 9, 15, 16, 17, 31, 32, 33, 63, 64, 65, 127, 128, 129, 255, 256, 257):
+        shapes = [("u16", 0), ("i16", -40), ("i16", -32768), ("i64", I64_MAX - s)]
+        r, b = shapes[k % len(shapes)]
+        vals = [b, b + 1, b + s] if k % 2 == 0 else [b, b + s - 1, b + s]
+        out.append(mk("k10_s%d" % s, r, vals, "K10", order="shuffled" if k % 3 == 0 else "sorted", seed=s,
+                      implicit="max", tier="q" if s in (31, 32, 33, 63, 64, 65, 127, 128, 256) else "t",
+                      note="MAX - MIN == %d" % s))
+        k += 1
+    # the same spans in the narrow reprs where they touch both type limits
+    out.append(mk("k10_u8_full", "u8", [0, 1, 64, 255], "K10", implicit="max", note="spans 64 and 255 in u8"))
+    out.append(mk("k10_i8_s64", "i8", [-64, -63, 0], "K10", implicit="max", note="MAX - MIN == 64 in i8"))
     return out
 
 
